@@ -259,7 +259,14 @@ def triage(unit, gen, vr, unit_cfg):
             unl = True
         # property attribution
         mm = re.match(r"((?:C\d+\+)*C\d+)\.", label)
-        prop = mm.group(1).split("+") if mm else [unit_cfg.get("unlabelled_property") if unl else unit_cfg.get("default_property")]
+        if mm:
+            prop = mm.group(1).split("+")
+        elif unl:
+            prop = [unit_cfg.get("unlabelled_property")]
+        else:
+            # a contract clause of the template that carries no label (a frame condition, a helper's postcondition): the proofs of
+            # every labelled obligation of this unit rely on it modularly, so its failure concerns every property of the unit
+            prop = list(unit_cfg.get("properties") or [unit_cfg.get("default_property")])
         name = "%s/%s/%s/%s" % (unit, fn or "prelude", cls, label)
         failures.append({"obligation": name, "cls": cls, "property": prop, "fn": fn, "kind": kind,
                          "where": where, "rendered": d.get("rendered", ""), "message": msg})
